@@ -117,6 +117,16 @@ MATRIX = [
     dict(entry="cli_write", mode="content", initial="over64k", base_hash="none", stdin=True, new_style="huge"),
     dict(entry="tool", mode="changes", initial="huge", base_hash="current", fmode=0o640),
     dict(entry="tool", mode="content", initial="absent", base_hash="none", new_style="over64k", parent_missing=1),
+    # multi-byte characters across every slice boundary; documents whose encoding is exactly at / one beside the usual thresholds
+    dict(entry="tool", mode="content", initial="canonical", base_hash="current", new_style="mbhuge"),
+    dict(entry="atomic", mode="content", initial="absent", base_hash="none", new_style="mbhuge"),
+    dict(entry="cli_write", mode="content", initial="canonical", base_hash="none", stdin=True, new_style="mbhuge"),
+    dict(entry="tool", mode="content", initial="canonical", base_hash="none", new_style="exact:8192:mb"),
+    dict(entry="atomic", mode="content", initial="canonical", base_hash="none", new_style="exact:8193:mb"),
+    dict(entry="tool", mode="content", initial="absent", base_hash="none", new_style="exact:65536:mb"),
+    dict(entry="atomic", mode="content", initial="absent", base_hash="none", new_style="exact:65537:ascii"),
+    dict(entry="tool", mode="content", initial="canonical", base_hash="none", new_style="exact:4096:ascii"),
+    dict(entry="cli_write", mode="content", initial="absent", base_hash="none", stdin=True, new_style="exact:131072:mb"),
 ]
 
 
@@ -167,7 +177,8 @@ def gen_scenario(t: Tape, idx: int, tier: str) -> dict:
                 sc["args"] = a
             if not a.get("lenient"):
                 sc["new_style"] = t.weighted([("canonical", 5), ("frontmatter", 1), ("corpus", 2), ("big", 1), ("huge", 1), ("unicode", 2),
-                                              ("longline", 1), ("nonl", 1), ("trail", 1), ("oddchars", 1)], "sc.ns3")
+                                              ("longline", 1), ("nonl", 1), ("trail", 1), ("oddchars", 1), ("mbhuge", 1),
+                                              ("exact:8191:mb", 1), ("exact:65535:mb", 1), ("exact:16384:mb", 1)], "sc.ns3")
         if entry == "tool" and sc["mode"] != "content" and t.flag(60, "sc.dry2"):
             sc["args"] = {"corrections_only": True}
         if t.flag(80, "sc.odd"):
@@ -256,6 +267,11 @@ def _new_text(t: Tape, style: str, marker: str, big: int) -> str:
         return docs.gen_doc(t, marker, "canonical", size=big)
     if style in ("huge", "over64k"):
         return docs.gen_doc(t, marker, "canonical", size=1500 if style == "huge" else 700)
+    if style == "mbhuge":
+        return docs.gen_doc(t, marker, "mbpad", size=600)  # ~100 KB, multi-byte characters across every slice boundary
+    if style.startswith("exact:"):
+        _, n_, mb_ = style.split(":")
+        return docs.exact_size_doc(marker, int(n_), mb_ == "mb")
     if style == "bad":
         return docs.gen_doc(t, marker, "lenient") + 'BROKEN::"unterminated\n'
     return docs.gen_doc(t, marker, style)
@@ -958,8 +974,14 @@ def make_case(seed: int, idx: int, tier: str, two_writers: bool = False) -> dict
     t = Tape(seed)
     sc = gen_scenario(t, idx, tier)
     knobs = gen_knobs(t)
-    if sc["initial"] in ("big", "corpus", "huge", "over64k") or sc.get("new_style") in ("big", "corpus", "huge", "over64k"):
-        floor = 16384 if "huge" in (sc["initial"], sc.get("new_style")) else 4096
+    ns_ = sc.get("new_style") or ""
+    size_ = len(_dec(sc.get("initial_data")) or b"") + len((sc.get("new_text") or "").encode())
+    if sc["initial"] in ("big", "corpus", "huge", "over64k") or ns_ in ("big", "corpus", "huge", "over64k", "mbhuge") or size_ > 30_000:
+        # chunk sizes scale with the content so that a run stays within the step cap; odd (non power-of-two) sizes for multi-byte
+        # content so that slice boundaries fall inside characters
+        floor = 16384 if ("huge" in (sc["initial"], ns_) or ns_ == "mbhuge" or size_ > 60_000) else 4096
+        if ns_ == "mbhuge" or ns_.endswith(":mb"):
+            floor += 1
         knobs["wchunk"] = max(knobs["wchunk"], floor)
         knobs["rchunk"] = max(knobs["rchunk"], floor)
     if two_writers and sc["entry"] in ("tool", "atomic"):
